@@ -72,6 +72,50 @@ theorem C14.name_refused (pfx : Bool) (s : Shape) (name : Str) (d : Desc) (h : c
   · obtain ⟨core, hs, hc⟩ := accepts_spells hacc
     exact ⟨inner, core, hs, Or.inr hp, hc⟩
 
+/-- Numeric tokens (the fixed `String::parse`, 5a16de52a / c82e1d7f9), for ALL strings: a token that is not exactly
+    a numeral — optional sign, at least one decimal digit, NOTHING else after trimming (no suffix such as `3x`,
+    `3:junk`, `3.0`, no embedded blank such as `12 1`, no `0x`) — is refused by the integer parse, and the unsigned
+    parse (refinement count, auto-degree) additionally refuses a minus sign. -/
+theorem C14.non_numeral_token_refused (tok : Str) :
+    (¬ IsNumeral true (trim tok) → parseInt tok = none) ∧ (¬ IsNumeral false (trim tok) → parseIndex tok = none) := by
+  constructor
+  · intro hn
+    cases h : parseInt tok with
+    | none => rfl
+    | some v => exact absurd (parseInt_numeral h) hn
+  · intro hn
+    cases h : parseIndex tok with
+    | none => rfl
+    | some v => exact absurd (parseIndex_numeral h) hn
+
+/-- ... hence, for ALL names: a name is answered with a parametrised rule `fac:n` only if the token after the first
+    colon of its (alias-mapped) core parses — as a whole — to exactly `n`; it is a numeral. -/
+theorem C14.count_token_is_numeral (pfx : Bool) (s : Shape) (name : Str) (d : Desc)
+    (h : createFor pfx s name = .ok d) (hv : d.fac.variadic = true) :
+    ∃ core head tail, splitFirst ':' (d.fac.aliasMap core) = some (head, tail) ∧
+      parseInt (trim tail) = some (d.n : Int) ∧ IsNumeral true (trim (trim tail)) := by
+  obtain ⟨_, _, core, hs, _⟩ := C14.name_refused pfx s name d h
+  unfold Factory.Spells at hs
+  rw [if_pos hv] at hs
+  obtain ⟨head, tail, h1, _, h3, _⟩ := hs
+  exact ⟨core, head, tail, h1, h3, parseInt_numeral h3⟩
+
+/-- ... and a name is answered with a k-fold refined rule, k ≠ 1 spelled out, only if the token after `*` is an
+    unsigned numeral that parses — as a whole — to exactly k (`refine*2x:`, `refine*2*2:`, `refine*-1:` are refused). -/
+theorem C14.refine_count_is_numeral (pfx : Bool) (s : Shape) (name : Str) (d : Desc)
+    (h : createFor pfx s name = .ok d) (hk : d.refines ≠ 0) :
+    ∃ head tail, splitFirst ':' (autoMap pfx s name) = some (head, tail) ∧
+      ((splitFirst '*' head = none ∧ d.refines = 1) ∨
+       ∃ hd cnt, splitFirst '*' head = some (hd, cnt) ∧ parseIndex cnt = some d.refines ∧ IsNumeral false (trim cnt)) := by
+  obtain ⟨_, inner, _, _, hcase, _⟩ := C14.name_refused pfx s name d h
+  rcases hcase with ⟨h0, _⟩ | hp
+  · exact absurd h0 hk
+  · obtain ⟨head, tail, h1, _, h3⟩ := parseRefine_count hp
+    refine ⟨head, tail, h1, ?_⟩
+    rcases h3 with ⟨a, b, _⟩ | ⟨hd, cnt, a, b, c, _⟩
+    · exact Or.inl ⟨a, b⟩
+    · exact Or.inr ⟨hd, cnt, a, b, c⟩
+
 /-- Name grammar, ranges (for ALL strings, both configurations, every shape): whatever the spelling — plain, alias,
     auto-degree, behind `refine[*k]:`, behind `tensor:`/`scalar:` — a name is only ever answered with a factory `f`
     and a count `n` inside `f`'s advertised range; i.e. every spelling that would resolve to a driver with a
